@@ -146,24 +146,40 @@ refuters = {p.name: refute_search for p in proofs}
 TU_TMS = ("tu_temporal_storage", '#include "%s/sdk/src/metrics/state/temporal_metric_storage.cc"\n' % R.core.REPO)
 TMS_PRE = r"""
 size_t g_k;
-typedef struct xc_aggr { unsigned long id; } xc_aggr;
-typedef struct xc_ahm { char xc_unused; } xc_ahm;
+typedef struct xc_aggr { unsigned long content; } xc_aggr;    /* an aggregation: the amount it holds (Merge adds amounts) */
+/* the merged AttributesHashMap seen at the delivered key K (not the overflow key), the overflow series and the rest: the abstract map whose
+   operations ./check C08 proves of the real class (cardinality limit: an absent key at the limit is served from / folded into the overflow series) */
+typedef struct xc_ahm { int kp; unsigned long kc; int op; unsigned long oc; unsigned long rest; unsigned long n_others; unsigned long limit; } xc_ahm;
 typedef struct xc_ahm_list { xc_ahm **items; size_t count; } xc_ahm_list;      /* std::list<std::shared_ptr<AttributesHashMap>> as a sequence */
-unsigned long g_get_calls, g_set_calls, g_merge_calls, g_create_calls, g_enum_calls, g_cb_calls, g_new_map_calls;
-const void *g_get_map, *g_get_key, *g_set_map, *g_set_key, *g_enum_map; xc_aggr *g_get_ret, *g_set_val, *g_merge_self, *g_merge_arg, *g_merge_ret, *g_create_ret;
-int g_get_present;
+unsigned long g_enum_calls, g_cb_calls, g_new_map_calls; const void *g_enum_map;
 const void *g_cb_attrs; xc_aggr g_cb_aggr_obj;
-static void xc_havoc_ghosts(void) { size_t a; int p; g_k = a; g_get_present = p; g_get_calls = g_set_calls = g_merge_calls = g_create_calls = g_enum_calls = g_cb_calls = g_new_map_calls = 0;
-  g_get_map = g_get_key = g_set_map = g_set_key = g_enum_map = 0; g_get_ret = g_set_val = g_merge_self = g_merge_arg = g_merge_ret = g_create_ret = 0; }
-#define TMS_GHOSTS g_get_calls, g_set_calls, g_merge_calls, g_create_calls, g_get_map, g_get_key, g_set_map, g_set_key, g_get_ret, g_set_val, g_merge_self, g_merge_arg, g_merge_ret, g_create_ret
+static void xc_havoc_ghosts(void) { size_t a; g_k = a; g_enum_calls = g_cb_calls = g_new_map_calls = 0; g_enum_map = 0; }
+#define AHM_SIZE(m) ((m)->n_others + (unsigned long)(m)->kp + (unsigned long)(m)->op)
+#define AHM_FULL(m) (AHM_SIZE(m) + 1 >= (m)->limit)
+#define AHM_TOTAL(m) (((m)->kp ? (m)->kc : 0UL) + ((m)->op ? (m)->oc : 0UL) + (m)->rest)
+#define BIG (1UL << 40)
+#define AHM_WF(m) (((m)->kp == 0 || (m)->kp == 1) && ((m)->op == 0 || (m)->op == 1) && (m)->limit >= 1 && (m)->limit <= 100000 && AHM_SIZE(m) <= (m)->limit && \
+   (AHM_SIZE(m) == (m)->limit ==> (m)->op == 1) && (m)->kc <= BIG && (m)->oc <= BIG && (m)->rest <= BIG)
 """
 TMS_POST = r"""
 typedef struct xc_last_reported { xc_ahm *attributes_map; SystemTimestamp collection_ts; } xc_last_reported;      /* LastReportedMetrics */
 static xc_aggr xc_o_get, xc_o_merge, xc_o_create; static xc_ahm xc_o_map; static xc_last_reported xc_o_last;
-static xc_aggr *xc_ahm_Get(const xc_ahm *m, const void *key) { g_get_calls++; g_get_map = m; g_get_key = key; g_get_ret = g_get_present ? &xc_o_get : NULL; return g_get_ret; }
-static void xc_ahm_Set(xc_ahm *m, const void *key, xc_aggr *v) { g_set_calls++; g_set_map = m; g_set_key = key; g_set_val = v; }
-static xc_aggr *xc_Merge(xc_aggr *self, const xc_aggr *other) { g_merge_calls++; g_merge_self = self; g_merge_arg = (xc_aggr *)other; g_merge_ret = &xc_o_merge; return g_merge_ret; }
-static xc_aggr *xc_CreateAggregation(void) { g_create_calls++; g_create_ret = &xc_o_create; return g_create_ret; }
+/* AttributesHashMap operations on the abstract map (their contracts on the real class: ./check C08) */
+static xc_aggr *xc_ahm_Get(const xc_ahm *m, const void *key) { if (!m->kp) return NULL; xc_o_get.content = m->kc; return &xc_o_get; }
+static xc_aggr *xc_ahm_GetOrSetDefault(xc_ahm *m, const void *key)
+{
+  if (m->kp) { xc_o_get.content = m->kc; return &xc_o_get; }
+  if (AHM_FULL(m)) { if (!m->op) { m->op = 1; m->oc = 0; } xc_o_get.content = m->oc; return &xc_o_get; }     /* served from the overflow series */
+  m->kp = 1; m->kc = 0; xc_o_get.content = 0; return &xc_o_get;
+}
+static void xc_ahm_Set(xc_ahm *m, const void *key, xc_aggr *v)
+{
+  if (m->kp) { m->kc = v->content; return; }
+  if (AHM_FULL(m)) { if (m->op) m->oc = m->oc + v->content; else { m->op = 1; m->oc = v->content; } return; }              /* folded into the overflow series */
+  m->kp = 1; m->kc = v->content;
+}
+static xc_aggr *xc_Merge(xc_aggr *self, const xc_aggr *other) { xc_o_merge.content = self->content + other->content; return &xc_o_merge; }
+static xc_aggr *xc_CreateAggregation(void) { xc_o_create.content = 0; return &xc_o_create; }       /* a fresh aggregation holds nothing */
 static xc_ahm *xc_new_ahm(void) { g_new_map_calls++; return &xc_o_map; }
 static xc_last_reported *xc_last_reported_of(void) { return &xc_o_last; }
 """
@@ -218,6 +234,7 @@ def _configure_tms(cfg):
         cfg.ext_q[cls + "::Get"] = lambda em, node, recv, args: "xc_ahm_Get(%s, (const void *)%s)" % (em.expr(unp(recv)), em.addr_of(args[0]))
         cfg.ext_q[cls + "::Set"] = lambda em, node, recv, args: "xc_ahm_Set(%s, (const void *)%s, %s)" % (em.expr(unp(recv)), em.addr_of(args[0]), em.expr(args[1]))
         cfg.ext_q[cls + "::GetAllEnteries"] = _tms_enum
+        cfg.ext_q[cls + "::GetOrSetDefault"] = lambda em, node, recv, args: "xc_ahm_GetOrSetDefault(%s, (const void *)%s)" % (em.expr(unp(recv)), em.addr_of(args[0]))
     for U in ("std::unique_ptr::", "std::shared_ptr::", "std::__shared_ptr_access::"):
         cfg.ext_methods[U + "operator->"] = lambda em, recv, args, n: recv
         cfg.ext_methods[U + "operator*"] = lambda em, recv, args, n: "(*%s)" % recv
@@ -232,15 +249,13 @@ def _configure_tms(cfg):
 def tms_lambda_contract(map_cap):
     M = "(*xc_cp_%s)" % map_cap
     return {"pre":
-        "__CPROVER_requires(__CPROVER_is_fresh(xc_cp_%s, sizeof(xc_ahm *)) && __CPROVER_is_fresh(%s, sizeof(xc_ahm)) && __CPROVER_is_fresh(self, sizeof(*self)))\n" % (map_cap, M) +
-        "__CPROVER_requires(__CPROVER_is_fresh(aggregation, sizeof(xc_aggr)))\n"
-        "__CPROVER_assigns(TMS_GHOSTS)\n"
-        # one lookup and one store in the merged map, under the delivered attribute set; exactly one Merge with the delivered aggregation
-        "__CPROVER_ensures(g_get_calls == 1 && g_set_calls == 1 && g_merge_calls == 1 && g_get_map == %s && g_set_map == %s && g_get_key == attributes && g_set_key == attributes)\n" % (M, M) +
-        "__CPROVER_ensures(g_merge_arg == aggregation && g_set_val == g_merge_ret)\n"
-        # a series already in the merged map is accumulated; a new one starts from a fresh neutral aggregation
-        "__CPROVER_ensures(g_get_ret != NULL ==> (g_merge_self == g_get_ret && g_create_calls == 0))\n"
-        "__CPROVER_ensures(g_get_ret == NULL ==> (g_merge_self == g_create_ret && g_create_calls == 1))\n"
+        "__CPROVER_requires(__CPROVER_is_fresh(xc_cp_%s, sizeof(xc_ahm *)) && __CPROVER_is_fresh(%s, sizeof(xc_ahm)) && __CPROVER_is_fresh(self, sizeof(*self)) && AHM_WF(%s))\n" % (map_cap, M, M) +
+        "__CPROVER_requires(__CPROVER_is_fresh(aggregation, sizeof(xc_aggr)) && aggregation->content <= BIG)\n"
+        "__CPROVER_assigns(__CPROVER_object_whole(%s), xc_o_get, xc_o_merge, xc_o_create)\n" % M +
+        # conservation: whatever the state of the merged map (the series present or not, the map at its cardinality limit or not), the amount held
+        # by the delivered aggregation is added to the map's total exactly once; the cardinality invariant is kept; the walk goes on
+        "__CPROVER_ensures(AHM_TOTAL(%(M)s) == ((__CPROVER_old(%(M)s->kp) ? __CPROVER_old(%(M)s->kc) : 0UL) + (__CPROVER_old(%(M)s->op) ? __CPROVER_old(%(M)s->oc) : 0UL) + __CPROVER_old(%(M)s->rest)) + aggregation->content)\n" % {"M": M} +
+        "__CPROVER_ensures(AHM_SIZE(%s) <= %s->limit && %s->limit == __CPROVER_old(%s->limit))\n" % (M, M, M, M) +
         "__CPROVER_ensures(__CPROVER_return_value)\n"}
 
 
@@ -249,9 +264,9 @@ SL_CUM = {"func": ("TemporalMetricStorage::buildMetrics", 6), "from": "last_aggr
 contracts_tms = {"buildMetrics_merge_unreported__l1": tms_lambda_contract("merged_metrics"), "buildMetrics_merge_cumulative__l1": tms_lambda_contract("merged_metrics")}
 proofs_tms = [
     Proof("Temporal_merge_unreported_callback", [SL_UNREP], enforce="buildMetrics_merge_unreported__l1",
-          desc="several deltas stashed for one collector add up: an existing series is accumulated, a new one starts from a fresh aggregation"),
+          desc="several deltas stashed for one collector add up: the delivered amount is added to the merged map's total exactly once, also at the cardinality limit"),
     Proof("Temporal_merge_cumulative_callback", [SL_CUM], enforce="buildMetrics_merge_cumulative__l1",
-          desc="cumulative reader: the previously reported totals are merged into the new deltas the same way"),
+          desc="cumulative reader: the previously reported totals are added to the new deltas' total exactly once, also at the cardinality limit"),
 ]
 for _p in proofs_tms:
     _p.tu = TU_TMS
@@ -276,7 +291,16 @@ def refute_storage(mod, proof, violations, ix, workdir, seed):
     full = subprocess.run([binpath, "search"], stdout=subprocess.PIPE, stderr=subprocess.STDOUT, text=True, timeout=900).stdout
     m = _re.findall(r"^FOUND (.*)$", full, _re.M)
     if not m:
-        return None
+        # second search: the merged map at its cardinality limit (the driver of C08: thousands of attribute sets over two collections)
+        b2 = R.build_native("c08_native", [os.path.join(R.core.HERE, "replay", "c08_native.cc")] + [os.path.join(R.core.REPO, s) for s in srcs], ["-O1"])
+        full2 = subprocess.run([b2, "search"], stdout=subprocess.PIPE, stderr=subprocess.STDOUT, text=True, timeout=900).stdout
+        m2 = _re.findall(r"^FOUND (.*)$", full2, _re.M)
+        if not m2:
+            return None
+        a2 = m2[-1].split()
+        r = R.native_check("c08_native", ["c08_native.cc"], a2, ["-O1"], repo_sources=srcs)
+        r["input"] = {"driver_args": a2, "meaning": "overflow <n1> <n2>: n1 distinct attribute sets, Collect, n2 further distinct sets, Collect (cumulative reader, default limit 2000)", "found_by": "directed native search (refute mode)"}
+        return r if r["reproduced"] else None
     args = m[-1].split()
     r = R.native_check("c06_storage_native", ["c06_storage_native.cc"], args, ["-O1"], repo_sources=srcs)
     r["input"] = {"driver_args": args, "meaning": "plan <a = Add 1 to set A, b = Add 10 to set B, 1 / 2 = reader 1 / 2 collects> <reader 1 delta?> <reader 2 delta?>", "found_by": "directed native search (refute mode)"}
